@@ -12,6 +12,7 @@ import (
 	"os"
 	"os/exec"
 	"path/filepath"
+	"regexp"
 	"strings"
 	"sync"
 	"time"
@@ -244,6 +245,7 @@ func (o *Obligation) Query(produceModels bool) string {
 		b.WriteString(l)
 		b.WriteByte('\n')
 	}
+	b.WriteString(zeroArrayDecls(o))
 	for _, l := range o.ctx.lines[:o.Mark] {
 		b.WriteString(l)
 		b.WriteByte('\n')
@@ -285,7 +287,7 @@ func Solve(o *Obligation, dir string, timeoutS int, wantModel bool) {
 		o.Result = "too-large"
 		return
 	}
-	file := filepath.Join(dir, sanitize(o.Name)+".smt2")
+	file := filepath.Join(dir, fmt.Sprintf("%s.%08x.smt2", sanitize(o.Name), fnv32(o.Name)))
 	if err := os.WriteFile(file, []byte(q), 0o644); err != nil {
 		o.Result = "error: " + err.Error()
 		return
@@ -393,4 +395,52 @@ func (o *Obligation) OK() bool {
 		return o.Result != "unsat"
 	}
 	return o.Result == "unsat"
+}
+
+func fnv32(s string) uint32 {
+	h := uint32(2166136261)
+	for i := 0; i < len(s); i++ {
+		h = (h ^ uint32(s[i])) * 16777619
+	}
+	return h
+}
+
+var zeroRe = regexp.MustCompile(`zero\.[A-Za-z_]+`)
+
+// zeroArrayDecls declares the all-zero arrays mentioned in the query.
+func zeroArrayDecls(o *Obligation) string {
+	seen := map[string]bool{}
+	var b strings.Builder
+	scan := func(l string) {
+		if !strings.Contains(l, "zero.") {
+			return
+		}
+		for _, m := range zeroRe.FindAllString(l, -1) {
+			if seen[m] {
+				continue
+			}
+			seen[m] = true
+			var srt, inner, z string
+			switch m {
+			case "zero._Array_Int_Int_":
+				srt, inner, z = "(Array Int Int)", "Int", "0"
+			case "zero._Array_Int_Bool_":
+				srt, inner, z = "(Array Int Bool)", "Bool", "false"
+			case "zero._Array_Int_Str_":
+				srt, inner, z = "(Array Int Str)", "Str", "gs.empty"
+			case "zero._Array_Int_Flt_":
+				srt, inner, z = "(Array Int Flt)", "Flt", "flt.zero"
+			default:
+				continue
+			}
+			_ = inner
+			fmt.Fprintf(&b, "(declare-fun %s () %s)\n(assert (forall ((i Int)) (! (= (select %s i) %s) :pattern ((select %s i)))))\n", m, srt, m, z, m)
+		}
+	}
+	for _, l := range o.ctx.lines[:o.Mark] {
+		scan(l)
+	}
+	scan(o.PC)
+	scan(o.Goal)
+	return b.String()
 }
